@@ -9,6 +9,7 @@
 Require Import List NArith Bool Permutation.
 Require Import KV.Rsp10.Model KV.Rsp10.Eval KV.Rsp10.Spec KV.Rsp10.Run.
 Require Import KV.Rsp10.StoreProofs KV.Rsp10.PipelineProofs KV.Rsp10.SchedProofs KV.Rsp10.EvalProofs.
+Require Import KV.Rsp10.QueueModel KV.Rsp10.QueueProofs.
 Import ListNotations.
 Local Open Scope N_scope.
 
@@ -124,6 +125,45 @@ Print Assumptions C10_executed_model.
 Definition witness_rules : list rule := [mkRule [(V 0, C 11, V 1)] (V 0, C 12, C 3)].
 Definition witness_pats : list pat := [(V 0, C 12, V 1)].
 Definition witness_history : list (list triple) := [[(1, 11, 2)]; [(1, 12, 3)]].
+
+(* The queue discipline is the ONLY assumption of the scheduling theorem about the hand-off between producer and
+   worker: for ANY queue implementation (type Q, push, pop) that is lossless and first-in-first-out - stated as laws
+   about an abstraction qabs of the queue as the list of contents in flight - every interleaving of sends and
+   receives emits a prefix of the single-thread sequence, and all of it once nothing is pending or in flight.
+   C10_sched_partial is the instance Q = list, push = append at the back, pop = take the head (an unbounded
+   std::sync::mpsc::channel). *)
+Theorem C10_sched_queue_laws :
+  forall (row : Type) (row_eqb : row -> row -> bool) (infer : list triple -> list triple)
+         (query : list triple -> list row) (norules : bool) (op : sop) (fixed : bool)
+         (Q : Type) (qempty : Q) (qpush : list triple -> Q -> Q) (qpop : Q -> option (list triple * Q))
+         (qabs : Q -> list (list triple)),
+    qabs qempty = [] ->
+    (forall c q, qabs (qpush c q) = qabs q ++ [c]) ->
+    (forall q c q', qpop q = Some (c, q') -> qabs q = c :: qabs q') ->
+    forall (inputs : list (list triple)) (sched : list act),
+      let m := qmt_run row row_eqb infer query norules op fixed Q qempty qpush qpop inputs sched in
+      exists rest, st_emits row row_eqb infer query norules op fixed inputs = q_out row Q m ++ rest /\
+                   (q_pending row Q m = [] -> qabs (q_queue row Q m) = [] -> rest = []).
+Proof. exact queue_laws_suffice. Qed.
+Print Assumptions C10_sched_queue_laws.
+
+(* A bounded queue that drops on overflow (sync_channel(cap) + try_send - seeded change 3) violates the push law,
+   and the conclusion fails: capacity 1, three window contents, the producer sends all three before the worker
+   receives anything; the queue is drained, yet only the first firing was emitted. *)
+Theorem C10_lossy_queue_refuted :
+  let inputs := [[(1, 12, 3)]; [(2, 12, 3)]; [(4, 12, 3)]] in
+  let sched := [Push; Push; Push; Pop; Pop; Pop] in
+  let m := qmt_run binding binding_eqb (infer_c FUEL []) (eval_bgp witness_pats) true RSTREAM true
+                   (list (list triple)) [] (lossy_push 1) fifo_pop inputs sched in
+  q_pending _ _ m = [] /\ q_queue _ _ m = [] /\
+  q_out _ _ m = [[[(0, 1); (1, 3)]]] /\
+  st_emits binding binding_eqb (infer_c FUEL []) (eval_bgp witness_pats) true RSTREAM true inputs
+    = [[[(0, 1); (1, 3)]]; [[(0, 2); (1, 3)]]; [[(0, 4); (1, 3)]]] /\
+  (exists c q, lossy_push 1 c q <> q ++ [c]).
+Proof.
+  vm_compute. repeat split. exists [(2, 12, 3)], [[(1, 12, 3)]]. vm_compute. discriminate.
+Qed.
+Print Assumptions C10_lossy_queue_refuted.
 
 Theorem C10_rederive_refuted_before_fix :
   let e := fst (run binding binding_eqb (infer_c FUEL witness_rules) (eval_bgp witness_pats) false RSTREAM false
